@@ -359,3 +359,61 @@ def propagate_copies(rel, text):
     for ln in blanks:
         lines[ln - 1] = ''
     return '\n'.join(lines)
+
+
+# ---------------------------------------------------------------------------------------------------
+# Functions that are equivalent to their reviewed snapshot under the behaviour-preserving rewrites of
+# normform.py are analysed in their reviewed form: the reviewed text of the function is spliced in.
+def splice_equivalent(rel, text):
+    """Returns (text', splices) with splices = [(qualname, canon_lo, canon_hi, orig_lo, orig_hi)] (1-based, inclusive)."""
+    ref_path = os.path.join(REFDIR, rel.replace('/', '__'))
+    if not os.path.isfile(ref_path):
+        return text, []
+    try:
+        with open(ref_path, encoding='utf-8') as f:
+            ref_text = f.read()
+        if ref_text == text:
+            return text, []
+        cur, ref = ast.parse(text), ast.parse(ref_text)
+    except (SyntaxError, OSError):
+        return text, []
+    from . import normform
+    cf, rf = _functions(cur), _functions(ref)
+    cmod = {n.name: n for n in cur.body if isinstance(n, ast.FunctionDef)}
+    rmod = {n.name: n for n in ref.body if isinstance(n, ast.FunctionDef)}
+    co = {k: v for k, v in cmod.items() if k not in rmod}
+    ro = {k: v for k, v in rmod.items() if k not in cmod}
+    done = []
+    plan = []
+    for q in sorted(cf, key=lambda x: (x.count('.'), x)):
+        if q not in rf or any(q.startswith(p + '.') for p in done):
+            continue
+        a, b = cf[q], rf[q]
+        if ast.dump(a) == ast.dump(b):
+            continue
+        try:
+            eq = normform.equivalent(a, b, co, ro)
+        except Exception:
+            eq = False
+        if eq:
+            done.append(q)
+            plan.append((q, a, b))
+    if not plan:
+        return text, []
+
+    def seg(fn):
+        lo = min([fn.lineno] + [d.lineno for d in fn.decorator_list])
+        return lo, fn.end_lineno
+    lines, rlines = text.split('\n'), ref_text.split('\n')
+    plan.sort(key=lambda t: seg(t[1])[0])
+    out, pos, splices = [], 1, []
+    for q, a, b in plan:
+        lo, hi = seg(a)
+        rlo, rhi = seg(b)
+        out.extend(lines[pos - 1:lo - 1])
+        canon_lo = len(out) + 1
+        out.extend(rlines[rlo - 1:rhi])
+        splices.append((q, canon_lo, len(out), lo, hi))
+        pos = hi + 1
+    out.extend(lines[pos - 1:])
+    return '\n'.join(out), splices
